@@ -10,9 +10,31 @@ Open Scope N_scope.
 
 Definition client := bytes.
 
-(* what a hook method returned as its error:
-   nil / packets.ErrRejectPacket / packets.CodeSuccessIgnore / another packets.Code / an error that is no packets.Code *)
+(* what a hook method returned as its error, as the broker classifies it: nil / an error that IS
+   packets.ErrRejectPacket / IS packets.CodeSuccessIgnore / has another packets.Code in its chain / has no
+   packets.Code.  This is the UNWRAPPED class: the broker tests with errors.Is / errors.As, which look
+   through fmt.Errorf("...%w", err) wrappers, so the model's hook result is insensitive to wrapping
+   ([classify] below maps a concrete Go error value, wrappers included, to its class). *)
 Inductive herr := ENone | EReject | EIgnore | ECode (c : N) | EOther.
+
+(* concrete Go error values: the sentinels, any other packets.Code, a plain error, and %w wrappers *)
+Inductive rawerr := RNil | RReject | RIgnore | RCode (c : N) | RPlain | RWrap (e : rawerr).
+Fixpoint is_reject (e : rawerr) : bool :=            (* errors.Is(err, packets.ErrRejectPacket) *)
+  match e with RReject => true | RWrap e' => is_reject e' | _ => false end.
+Fixpoint is_ignore (e : rawerr) : bool :=            (* errors.Is(err, packets.CodeSuccessIgnore) *)
+  match e with RIgnore => true | RWrap e' => is_ignore e' | _ => false end.
+Fixpoint as_code (e : rawerr) : option N :=          (* errors.As(err, &code) *)
+  match e with
+  | RCode c => Some c | RReject => Some 131 | RIgnore => Some 0
+  | RWrap e' => as_code e' | _ => None
+  end.
+Definition classify (e : rawerr) : herr :=
+  match e with
+  | RNil => ENone
+  | _ => if is_reject e then EReject else if is_ignore e then EIgnore
+         else match as_code e with Some c => ECode c | None => EOther end
+  end.
+Fixpoint wrapn (n : nat) (e : rawerr) : rawerr := match n with O => e | S k => RWrap (wrapn k e) end.
 
 (* the part of a PUBLISH / SUBSCRIBE packet that hooks see and may change *)
 Record ppkt := mkP { pp_topic : bytes; pp_payload : bytes; pp_qos : N; pp_retain : bool; pp_pid : N }.
@@ -372,12 +394,17 @@ Definition beq_oev (v5 : bool) (a b : oev) : bool :=
   end.
 
 (* ---------- scripted hooks (what the harness installs) ---------- *)
-Record action := mkA { a_topic : bytes; a_suffix : bytes; a_ret : N; a_res : N; a_code : N }.
+Record action := mkA { a_topic : bytes; a_suffix : bytes; a_ret : N; a_res : N; a_code : N; a_wrap : N }.
+(* the Go error value a scripted hook returns: bare, or wrapped a_wrap times with %w *)
+Definition action_err (a : action) : rawerr :=
+  if a_res a =? 0 then RNil
+  else wrapn (N.to_nat (a_wrap a))
+             (if a_res a =? 1 then RReject else if a_res a =? 2 then RIgnore
+              else if a_res a =? 3 then RCode (a_code a) else RPlain).
 Definition apply_action (a : action) (p : ppkt) : ppkt * herr :=
   (mkP (if nilb (a_topic a) then pp_topic p else a_topic a) (pp_payload p ++ a_suffix a) (pp_qos p)
        (if a_ret a =? 0 then pp_retain p else if a_ret a =? 1 then false else true) (pp_pid p),
-   if a_res a =? 0 then ENone else if a_res a =? 1 then EReject else if a_res a =? 2 then EIgnore
-   else if a_res a =? 3 then ECode (a_code a) else EOther).
+   classify (action_err a)).
 Definition table_fn (tbl : list (bytes * action)) : client -> ppkt -> ppkt * herr :=
   fun _ p => match assoc (pp_topic p) tbl with Some a => apply_action a p | None => (p, ENone) end.
 Definition sub_fn (tbl : list (bytes * (bytes * N))) : client -> spkt -> spkt :=
@@ -400,7 +427,7 @@ Definition as_spkt (v : val) : option spkt :=
   match v with VL [VN pid; VL fs] => do fs' <- map_opt as_fq fs; Some (mkS pid fs') | _ => None end.
 Definition as_action (v : val) : option (bytes * action) :=
   match v with
-  | VL [VB t; VB nt; VB sfx; VN rm; VN res; VN code] => Some (t, mkA nt sfx rm res code)
+  | VL [VB t; VB nt; VB sfx; VN rm; VN res; VN code; VN wr] => Some (t, mkA nt sfx rm res code wr)
   | _ => None
   end.
 Definition as_subrule (v : val) : option (bytes * (bytes * N)) :=
